@@ -8,4 +8,6 @@ import CruxVerif.Props.C14
 #print axioms Props.C14.C14_sound_partial
 #print axioms Props.C14.C14_full_false
 #print axioms Props.C14.stale_content_type_exact
-#print axioms Props.C14.unknown_length_body_sent
+#print axioms Props.C14.reader_body_exact
+#print axioms Props.C14.reader_chunking_irrelevant
+#print axioms Props.C14.reader_body_complete
